@@ -342,6 +342,123 @@ MUTATORS = {"append", "extend", "add", "update", "clear", "pop", "popitem", "rem
             "intersection_update", "difference_update", "__setitem__", "__delitem__"}
 
 
+# ---------------------------------------------------------------------------------------------
+# 1b. the same question for the other modules on the way from a model / a script to serialized bytes
+#     (rewriter core, optimizer, version converter, values, builders, inliner).  These modules hand sets
+#     to helpers, so the scan is not fail-closed there: a set-typed value whose use cannot be followed
+#     is counted (`unresolved`), a set that is definitely iterated into something emitted and is not
+#     wrapped in sorted(...) is a site that breaks the obligation.
+# ---------------------------------------------------------------------------------------------
+
+WIDE_FILES = [
+    "onnxscript/rewriter/_rewrite_rule.py", "onnxscript/rewriter/_basics.py", "onnxscript/rewriter/_matcher.py",
+    "onnxscript/rewriter/_pattern_ir.py", "onnxscript/rewriter/__init__.py", "onnxscript/rewriter/_ir_utils.py",
+    "onnxscript/rewriter/_fusion_utils.py", "onnxscript/rewriter/_rewrite_rule.py",
+    "onnxscript/optimizer/_constant_folding.py", "onnxscript/optimizer/_optimizer.py", "onnxscript/optimizer/__init__.py",
+    "onnxscript/version_converter/__init__.py", "onnxscript/version_converter/_version_converter.py",
+    "onnxscript/version_converter/_c_api_utils.py",
+    "onnxscript/_internal/values.py", "onnxscript/_internal/tape_builder.py", "onnxscript/_internal/builder.py",
+    "onnxscript/_internal/_inliner.py", "onnxscript/_internal/autocast.py", "onnxscript/_internal/main.py",
+    "onnxscript/utils/metadata_merger.py", "onnxscript/utils/replace.py",
+    "onnxscript/rewriter/rules/common/_basic_rules.py", "onnxscript/rewriter/rules/common/_fuse_pad_into_conv.py",
+    "onnxscript/rewriter/rules/common/_materialize_reshape_shape.py", "onnxscript/rewriter/rules/fusion/_rms_normalization.py",
+]
+_SET_ANN = ("set", "Set", "frozenset", "AbstractSet", "MutableSet", "typing.Set", "typing.AbstractSet")
+# bodies made only of such calls do not emit (membership bookkeeping, logging)
+WIDE_NONEMIT = NONEMIT_CALLS | {"add", "discard", "remove", "update", "debug", "info", "warning", "append_to_log"}
+
+
+class _SetSitesWide(_SetSites):
+    def __init__(self, relpath, tree):
+        super().__init__(relpath, tree, set(), set())
+        self.unresolved = []
+        self.module_sets = set()
+        for n in tree.body:
+            tv = []
+            if isinstance(n, ast.Assign):
+                tv = [(t, n.value, None) for t in n.targets]
+            elif isinstance(n, ast.AnnAssign):
+                tv = [(n.target, n.value, n.annotation)]
+            for t, v, ann in tv:
+                if not isinstance(t, ast.Name):
+                    continue
+                if (ann is not None and ast.unparse(ann).startswith(_SET_ANN)) or (v is not None and self.is_set(v, set())):
+                    self.module_sets.add(t.id)
+
+    def is_set(self, e, setvars):
+        if isinstance(e, ast.Name) and e.id in getattr(self, "module_sets", ()):
+            return True
+        return super().is_set(e, setvars)
+
+    def _is_analysis_call(self, f):
+        return False
+
+    def _only_nonemit_calls(self, nodes):
+        for x in nodes:
+            for c in ast.walk(x):
+                if isinstance(c, ast.Call):
+                    f = c.func
+                    if isinstance(f, ast.Attribute) and f.attr in WIDE_NONEMIT:
+                        continue
+                    if isinstance(f, ast.Name) and f.id in ORDER_FREE_CONSUMERS | {"any", "all"}:
+                        continue
+                    return False
+        return True
+
+    def scan_function(self, fn):
+        # local variables annotated as sets count as sets even when their initial value is opaque
+        before = len(self.problems)
+        extra = set()
+        for n in _own_nodes(fn):
+            if isinstance(n, ast.AnnAssign) and isinstance(n.target, ast.Name) and ast.unparse(n.annotation).startswith(_SET_ANN):
+                extra.add(n.target.id)
+        if extra:
+            # re-enter with the annotated names pre-seeded: wrap the arguments mechanism
+            fn = _with_set_args(fn, extra)
+        super().scan_function(fn)
+        self.unresolved += self.problems[before:]
+        del self.problems[before:]
+
+
+def _with_set_args(fn, names):
+    """a shallow copy of fn whose argument list also declares `names` as set-annotated (scan only)."""
+    import copy
+    f2 = copy.copy(fn)
+    f2.args = copy.copy(fn.args)
+    f2.args.kwonlyargs = list(fn.args.kwonlyargs) + [ast.arg(arg=n, annotation=ast.Name(id="set", ctx=ast.Load())) for n in sorted(names)]
+    return f2
+
+
+def wide_sites(repo):
+    sites, unresolved, problems = [], [], []
+    seen = set()
+    for rel in WIDE_FILES:
+        if rel in seen:
+            continue
+        seen.add(rel)
+        path = os.path.join(repo, rel)
+        if not os.path.exists(path):
+            problems.append(f"{rel}: file is gone (the list of modules scanned for set->sequence sites is out of date)")
+            continue
+        try:
+            tree = ast.parse(open(path).read())
+        except SyntaxError as e:
+            problems.append(f"{rel}: {e}")
+            continue
+        w = _SetSitesWide(rel, tree)
+        s, _p = w.run()
+        sites += s
+        unresolved += w.unresolved
+    sites.sort(key=lambda s: (s["file"], s["line"], s["kind"], s["expr"]))
+    rows = []
+    for s in sites:
+        rows.append(f"  {{| s_func := {cstr(s['file'].rsplit('/', 1)[-1] + ':' + s['func'])}; s_line := {s['line']}; s_kind := {cstr(s['kind'])}; "
+                    f"s_sorted := {'true' if s['sorted'] else 'false'}; s_emits := {'true' if s['emits'] else 'false'} |}}"
+                    f"  (* {s['expr'].replace('*)', '* )')} *)")
+    text = "\nDefinition sites_wide : list site := [\n" + ";\n".join(rows) + "\n].\n"
+    return text, sites, unresolved, problems
+
+
 class Problem(Exception):
     pass
 
